@@ -30,6 +30,10 @@ type simScript struct {
 	Replies  map[string][]string `json:"replies"`  // line -> reply per occurrence (last one repeats)
 	Log      string              `json:"log"`
 	Slow     bool                `json:"slow"` // answer line by line with a pause (lock-step timing)
+	// Splits: the answer to this line is written in pieces, cut at these byte offsets of the raw
+	// (CR LF) answer, with DelayMs between the pieces (slow echo, prompt in pieces)
+	Splits  map[string][]int `json:"splits"`
+	DelayMs int              `json:"delay_ms"`
 }
 
 type simState struct {
@@ -70,6 +74,21 @@ func (s *simState) line(l string) {
 		s.occ[l]++
 		if k >= len(rs) {
 			k = len(rs) - 1
+		}
+		if cuts, ok := s.sc.Splits[l]; ok && len(cuts) > 0 && !strings.Contains(rs[k], "<!>") {
+			raw := strings.ReplaceAll(rs[k], "\n", "\r\n")
+			prev := 0
+			for _, c := range cuts {
+				if c <= prev || c >= len(raw) {
+					continue
+				}
+				s.out.WriteString(raw[prev:c])
+				s.flush()
+				time.Sleep(time.Duration(s.sc.DelayMs) * time.Millisecond)
+				prev = c
+			}
+			s.out.WriteString(raw[prev:])
+			return
 		}
 		s.start(rs[k])
 		return
